@@ -128,6 +128,25 @@ Theorem set_initial_estimates_wf :
     map p_name r = map p_name l /\ (forallb Wf.param_wf l = true -> forallb Wf.param_wf r = true).
 Proof. exact set_inits_spec. Qed.
 
+(* Parameters.set_fix (the path of modeling.fix_parameters / unfix_parameters / fix_or_unfix_parameters / fix_parameters_to):
+   for every parameter list and every name -> flag mapping, whenever it returns, the result is the input list with only
+   the fix flags of the named parameters changed (same names in the same order, same inits and bounds); on a list of
+   well-formed parameters it ALWAYS returns (re-validation through replace/create never refuses) and the result is well
+   formed.  It can only raise for a parameter that was built unchecked with its init outside its bounds. *)
+Theorem set_fix_changes_only_flags :
+  forall fx l r, set_fix l fx = Some r -> r = map (with_fix fx) l.
+Proof. exact set_fix_shape. Qed.
+Theorem set_fix_never_refuses_wellformed :
+  forall fx l, forallb Wf.param_wf l = true -> set_fix l fx = Some (map (with_fix fx) l).
+Proof. exact set_fix_total. Qed.
+Theorem set_fix_preserves_wf :
+  forall fx l r, set_fix l fx = Some r -> forallb Wf.param_wf l = true -> forallb Wf.param_wf r = true.
+Proof. exact set_fix_wf. Qed.
+Theorem with_fix_keeps_value_fields :
+  forall fx p, p_name (with_fix fx p) = p_name p /\ p_init (with_fix fx p) = p_init p /\
+               p_lower (with_fix fx p) = p_lower p /\ p_upper (with_fix fx p) = p_upper p.
+Proof. exact with_fix_fields. Qed.
+
 (* Parameters.create accepts exactly the lists with pairwise distinct names (and returns them unchanged). *)
 Theorem names_unique :
   forall l r, params_create l = Some r -> r = l /\ NoDup (map p_name r).
